@@ -36,6 +36,7 @@ const (
 	wireMigAdvance        = 32
 	wireMigClearFence     = 38
 	wireMigAbort          = 39
+	wireMigGC             = 40
 	wireMigCreateGuarded  = 41
 	wireCreateRuntimeMeta = 59
 )
@@ -243,6 +244,16 @@ func (w *c13World) rootCause(batch []logEntry, j int, got []byte, hsIdx int, whe
 			if infos[i].ok && infos[i].typ == wireDeleteChannel && accepted(i) && infos[i].ch == infos[j].ch && infos[i].chType == infos[j].chType &&
 				w.effHS(batch[i]) == w.effHS(batch[j]) {
 				return "delete-channel-then-subscriber-change-in-one-batch"
+			}
+		}
+	}
+	// 4. retention GC after a task was finished earlier in the same batch: the GC plans
+	// and scans committed task rows, so it neither counts nor removes that task
+	if j > 0 && infos[j].ok && infos[j].typ == wireMigGC && !batch[j].rejected &&
+		bytes.HasPrefix(batch[j].res, []byte("WKMG")) && bytes.HasPrefix(got, []byte("WKMG")) {
+		for i := 0; i < j; i++ {
+			if infos[i].ok && infos[i].finishesTask() && accepted(i) && w.effHS(batch[i]) == w.effHS(batch[j]) {
+				return "migration-gc-after-task-finished-in-same-batch"
 			}
 		}
 	}
